@@ -588,7 +588,16 @@ class DaskLazyIndexer:
         # excessive memory and is potentially faster.
         if out is None:
             out = [np.empty(array.shape, array.dtype) for array in kept]
-        da.store(kept, out, lock=False)
+        # Identical dask arrays (same name) are only stored once by dask, so
+        # store each distinct array once and copy its output to the duplicates
+        first = {}
+        for array, target in zip(kept, out):
+            first.setdefault(array.name, (array, target))
+        da.store([array for array, _ in first.values()],
+                 [target for _, target in first.values()], lock=False)
+        for array, target in zip(kept, out):
+            if target is not first[array.name][1]:
+                target[...] = first[array.name][1]
         return out
 
     def __len__(self):
